@@ -388,3 +388,68 @@ Definition agree_pres (impl model : pres) : bool :=
   | PValueErr, PValueErr | PRuntimeErr, PRuntimeErr => true
   | _, _ => false
   end.
+
+(* ------------------------------------------------------------------ sort_point_plane *)
+(* R = rotation_matrix(arccos(n.e_z), n x e_z) applied to p, for a UNIT normal n and
+   s = sin(angle) = sqrt(nx^2 + ny^2) >= 0 (supplied by the caller; checked in the tie).
+   s = 0 (n = +-e_z): the rotation axis vanishes and rotation_matrix returns the identity. *)
+Definition rot_to_z (n : v3) (s : Q) (p : v3) : v3 :=
+  let '(nx, ny, nz) := n in let '(px, py, pz) := p in
+  if Qeq_bool s 0 then p
+  else
+    let kx := ny / s in let ky := - nx / s in
+    let wx := ky * pz in let wy := - kx * pz in let wz := - ky * px + kx * py in
+    let w2x := - ky * ky * px + kx * ky * py in
+    let w2y := kx * ky * px - kx * kx * py in
+    let w2z := - pz in
+    (px + s * wx + (1 - nz) * w2x, py + s * wy + (1 - nz) * w2y, pz + s * wz + (1 - nz) * w2z).
+
+(* position of arctan2(a, b) in (-pi, pi]: 0: (-pi,0), 1: angle 0 (also a = b = 0),
+   2: (0,pi), 3: angle pi *)
+Definition atan2_sector (ab : Q * Q) : nat :=
+  let '(a, b) := ab in
+  if qltb a 0 then 0%nat
+  else if qltb 0 a then 2%nat
+  else if qltb b 0 then 3%nat else 1%nat.
+
+(* arctan2(a1,b1) < arctan2(a2,b2), decided by sectors and the sign of a cross product *)
+Definition atan2_ltb (v1 v2 : Q * Q) : bool :=
+  let s1 := atan2_sector v1 in let s2 := atan2_sector v2 in
+  if (s1 <? s2)%nat then true
+  else if (s2 <? s1)%nat then false
+  else if (Nat.eqb s1 0 || Nat.eqb s1 2)
+       then qltb 0 (snd v1 * fst v2 - fst v1 * snd v2) else false.
+
+(* stable argsort with a comparison function *)
+Fixpoint ins_by {A} (ltb : A -> A -> bool) (v : A) (i : nat) (l : list (A * nat)) : list (A * nat) :=
+  match l with
+  | [] => [(v, i)]
+  | (w, j) :: r => if ltb v w then (v, i) :: (w, j) :: r else (w, j) :: ins_by ltb v i r
+  end.
+Fixpoint argsort_by_aux {A} (ltb : A -> A -> bool) (l : list A) (i : nat) (acc : list (A * nat)) : list nat :=
+  match l with
+  | [] => map snd acc
+  | v :: r => argsort_by_aux ltb r (S i) (ins_by ltb v i acc)
+  end.
+Definition argsort_by {A} (ltb : A -> A -> bool) (l : list A) : list nat := argsort_by_aux ltb l 0%nat [].
+
+(* np.argsort(np.arctan2(delta[0], delta[1])) with delta = R (pts - centre); the third
+   rotated coordinate vanishes for points in the plane *)
+Definition plane_keys (n : v3) (s : Q) (pts : list v3) (centre : v3) : list (Q * Q) :=
+  map (fun p => let '(x, y, _) := rot_to_z n s (sub3 p centre) in (x, y)) pts.
+
+Definition sort_point_plane (n : v3) (s : Q) (pts : list v3) (centre : v3) : list nat :=
+  argsort_by atan2_ltb (plane_keys n s pts centre).
+
+Fixpoint rotate_left {A} (k : nat) (l : list A) : list A :=
+  match k with O => l | S k' => rotate_left k' (roll1 l) end.
+
+(* impl vs model: exact equality in the identity frame (s = 0); in a rotated frame the
+   floating-point rotation leaves ~1e-16 noise, so a point on the cut (angle pi) may wrap to
+   -pi: equality up to a cyclic rotation.  The unit-normal data are checked here. *)
+Definition agree_plane (impl : list nat) (n : v3) (s : Q) (pts : list v3) (centre : v3) : bool :=
+  let '(nx, ny, nz) := n in
+  let m := sort_point_plane n s pts centre in
+  Qeq_bool (nx * nx + ny * ny + nz * nz) 1 && Qeq_bool (s * s) (nx * nx + ny * ny) && Qle_bool 0 s
+  && if Qeq_bool s 0 then list_eqb Nat.eqb impl m
+     else existsb (fun k => list_eqb Nat.eqb impl (rotate_left k m)) (seq 0 (length m)).
